@@ -4,7 +4,7 @@ from props.common import TRUSTED_BASE, ASSUMPTIONS as _A
 
 ID = 'C04'
 LEAN_MODULES = ['HidVerif.Props.C04']
-THEOREMS = ['HidVerif.Props.C04.' + n for n in ('core_stack_check_exact', 'write_int_buffer_sufficient', 'entry_guard_exact', 'gap_arith', 'index_guard_arith', 'length_guard_arith',
+THEOREMS = ['HidVerif.Props.C04.' + n for n in ('core_stack_check_exact', 'core_call_stack_check', 'write_int_buffer_sufficient', 'entry_guard_exact', 'gap_arith', 'index_guard_arith', 'length_guard_arith',
                                                  'write_int_footprint')]
 TRUSTED = TRUSTED_BASE + ['Sphinx/Monitor.lean: the region monitor (frame accesses in [ap,fp), element accesses in the array region or '
                           'globals, library stores in the free gap, registers written only as destinations) - an observer, no theorem '
